@@ -133,8 +133,17 @@ def payload_values():
         when: dt.datetime
         wait: dt.timedelta
 
+    import typing
+
+    class Order(pydantic.BaseModel):
+        item: str
+        quantity: int = 1
+        note: typing.Optional[str] = None
+        request_id: str = pydantic.Field(default_factory=lambda: "generated-by-the-producer")
+
     return [
         ("none", None),
+        ("pydantic-top-with-unset-defaults", Order(item="book")),
         ("nested", {"a": [1, 2.5, {"b": None, "c": [True, False]}], "s": "x\"y\\z é ☃", "n": -7}),
         ("dataclass", {"p": Point(1, 2.5)}),
         ("pydantic-top", User(name="n", tags=["a", "b"], born=dt.date(2001, 2, 3))),
@@ -236,6 +245,12 @@ def h07_e2e(S, backend="mem"):
     same(S, "key", sent[0], got[0])
     S.check("payload-as-enqueued", out["payload"] == sent[1], info=f"{out['payload']!r} vs {sent[1]!r}")
     S.check("payload-is-the-serialised-arguments", out["payload"] == (out["serialized"] or ""))
+    import json
+    import pydantic
+    if isinstance(value, pydantic.BaseModel):
+        # independent of repid's serializer: the model's own complete JSON form (every field, set or defaulted)
+        S.check("payload-carries-every-field-of-the-model", json.loads(out["payload"]) == json.loads(value.model_dump_json()),
+                info=f"{out['payload']!r} vs {value.model_dump_json()!r}")
     same(S, "parameters", sent[2], got[2])
     if out["again"] is not None:
         want, again = out["again"]
@@ -357,7 +372,7 @@ HARNESSES = [
                     covers=["constructed", "foreign-payload"],
                     stubs=["construct() runs the real JSON encoder on a placeholder id which is then replaced by the symbolic id"]),
     Harness(name="H07-e2e-mem", scenario=_e2e("mem"), workers=16, budget_s=900,
-            bounds={"argument values": "10 concrete representatives (nested JSON, dataclass, pydantic models, dates/durations, lone surrogates, marker-like strings)",
+            bounds={"argument values": "11 concrete representatives (nested JSON, dataclass, pydantic models, dates/durations, lone surrogates, marker-like strings)",
                     "job settings": "priority in {LOW, MEDIUM, HIGH}; timeout/ttl/deferred_by/result_ttl any µs in [1 s, 100 y]; deferred_until any future µs; retries any int; every optional setting on/off; inline or bucket transport"},
             functions=["job.py:Job.enqueue", "_processor.py:_Processor.get_payload"], covers=["received"]),
     Harness(name="H07-waiting-consumer", scenario=h07_waiting_consumer, workers=4,
